@@ -345,12 +345,12 @@ func (server *Server) handleMessage(conn *Conn, msg *proto.Message) (*Message, e
 
 // responseMessage returns the response message to the request connection.
 func (server *Server) responseMessage(conn io.Writer, msg *Message) error {
-	var bytes []byte
-	var err error
-	if msg != nil {
-		bytes, err = msg.RESPBytes()
-	} else {
-		bytes, err = NewErrorMessage(ErrSystem).Bytes()
+	if msg == nil {
+		msg = NewErrorMessage(ErrSystem)
+	}
+	bytes, err := msg.RESPBytes()
+	if err != nil {
+		bytes, err = NewErrorMessage(err).RESPBytes()
 	}
 	if err != nil {
 		return err
